@@ -47,6 +47,8 @@ def gen_value(r: random.Random, depth: int = 2) -> Any:
 
 def gen_data(r: random.Random) -> dict[str, Any]:
     d: dict[str, Any] = {}
+    if r.random() < 0.07:
+        return d            # rendering without any data is a boundary of its own
     for v in VARS:
         if r.random() < 0.8:
             d[v] = gen_value(r)
